@@ -264,7 +264,7 @@ class Model:
         cases = list(cases)
         if not cases:
             return []
-        procs = procs or (NPROC if len(cases) > 2000 else 1)
+        procs = max(1, min(procs or (NPROC if len(cases) > 2000 else 1), len(cases)))
         chunks = [cases[i::procs] for i in range(procs)]
         ps = []
         for ch in chunks:
